@@ -11,13 +11,16 @@ HANG = ['deadlock', 'cancel_hangs']
 C14K = ['node_start_twice_without_complete', 'node_complete_without_start', 'body_without_node_start', 'missing_node_complete',
         'complete_reports_error_for_value', 'complete_reports_success_for_failure', 'complete_reports_other_exception']
 F = [
- dict(id='KF-REC2', family='rec_two_scopes', properties=RUNP + ['C19'], kinds=GEN + HANG + C14K + ['wrong_case_routed'],
-      mechanism='a recurrent destination that is reached from two sub-pipeline scopes (main pipeline and a switch case / one-of candidate / '
-                'second execution of a switch): while the subgraph re-iterates, the second scope takes the duplicate-request path of '
-                '_execute_node, reads the hidden result as None and _run_node stores and propagates that None (manager.py 309-314, 645-646)',
-      witness={'C03': 'witnesses/KF-REC2.json', 'C01': 'witnesses/KF-REC2.json'}),
+ dict(id='KF-REC2', family='rec_two_scopes', properties=['C01', 'C02', 'C05', 'C07', 'C08', 'C09', 'C10', 'C11', 'C13'], kinds=HANG,
+      mechanism='a recurrent subgraph that is inside two sub-pipeline scopes which are both active in the run, one of them a one-of candidate '
+                '(e.g. consumed directly and through a candidate): whether a failure inside a re-iteration is contained (stored as a result) '
+                'or raised is decided by the scope that happens to drive the subgraph; when the candidate drives it, the failure is stored, '
+                'the subgraph is abandoned and the other scope waits for the destination forever (hang). The None propagation that used to '
+                'be listed here was repaired (D37).',
+      witness={'C09': 'witnesses/KF-REC2.json', 'C02': 'witnesses/KF-REC2.json'}),
  dict(id='KF-RECINNER', family='rec_inner_sw', properties=RUNP + ['C19'],
-      kinds=['never_node_ran', 'unexpected_args', 'over_execution', 'deadlock', 'cancel_hangs'],
+      kinds=['never_node_ran', 'unexpected_args', 'over_execution', 'deadlock', 'cancel_hangs', 'unexpected_default_call',
+             'wrong_arg_names', 'missing_default_call'],
       mechanism='the recurrent subgraph is built from the unfiltered graph (manager.py _run_recurrent_subgraph: get_connected_subgraph(self.dag.graph, ...)), '
                 'so on every re-iteration all cases of a switch inside the subgraph are executed eagerly, selected or not',
       witness={'C09': 'witnesses/KF-RECINNER.json', 'C03': 'witnesses/KF-RECINNER.json'}),
@@ -27,9 +30,9 @@ F = [
       mechanism='same mechanism for a one-of inside a recurrent subgraph: on re-iteration every candidate is executed eagerly as an ordinary '
                 'node of the subgraph (laziness and containment are lost)',
       witness={'C10': 'witnesses/KF-RECINNER-ONEOF.json'}),
- dict(id='KF-RECOUT', family='rec_outside_consumer', properties=['C12', 'C01', 'C03', 'C11'],
+ dict(id='KF-RECOUT', family='rec_outside_consumer', properties=['C12', 'C01', 'C03', 'C11', 'C07', 'C08', 'C09'],
       kinds=['wrong_value', 'unexpected_args', 'missing_execution', 'schedule_dependent_outcome', 'missing_default_call',
-             'unexpected_default_call', 'over_execution'],
+             'unexpected_default_call', 'over_execution', 'never_node_ran', 'wrong_case_routed'],
       mechanism='a node outside a recurrent subgraph that reads a node inside it without being ordered after the subgraph (it does not depend on '
                 'the recurrent result): it is executed once, with the value of whichever iteration happened to be visible when it became ready '
                 '(manager.py _is_ready_to_execute / hide_last_execution), and it is not re-executed; C03 asks for the final-iteration value',
@@ -47,6 +50,8 @@ F = [
 for f in F:
     f['status'] = 'open'
 FIXED = [
+ 'fixed: property=C03 b55dc74 a node requested by a second sub-pipeline while a recurrent subgraph re-executed it (recurrent destination in two scopes, inner node read from outside): the hidden result was read as None, stored and delivered to consumers (witnesses/D37.json); also C01 C04 C09 C10 C11',
+ 'fixed: property=C02 a5a5236 hang when a node fails in a re-iteration of a recurrent subgraph consumed by an ordinary node of a switch case inside a one-of candidate (witnesses/D36.json)',
  'fixed: property=C02 bfae290 hang when a node body itself ends with asyncio.CancelledError (nobody cancelled the run): the cancelled helper task was skipped by the error scan (witnesses/D35.json)',
  'fixed: property=C02 8af1c59 a one-of candidate that is also consumed directly by another node: the direct consumer never became ready and the run hung (witnesses/D34.json); also C10 C03 C05',
  'fixed: property=C15 c19c0ea two parameters of one node bound to the same upstream node (or the same named switch) collapsed into one graph edge and only the last parameter was supplied (witnesses/D33.json, witnesses/D33-build.json); also C03',
